@@ -255,6 +255,32 @@ def check_case(case):
                                 "merge changed: %s" % why))
         else:
             f = xfn.make_fn(["a"], kind="num", name="f14")
+            if case["chunks"] == 1:
+                # the engine is given per call, the harvesters' own default
+                # is the other one
+                other = "joblib" if eng == "h5netcdf" else "h5netcdf"
+                h = xyz.Harvester(xyz.Runner(f, var_names="out"),
+                                  data_name=name, engine=other, full_ds=ds)
+                h.save_full_ds(engine=eng)
+                if listing() != [want_file]:
+                    vio.append((key("file-name"), "Harvester saved %r with a "
+                                "per-call engine as %r, expected %r" % (
+                                    case["name"], listing(), want_file)))
+                h2 = xyz.Harvester(xyz.Runner(f, var_names="out"),
+                                   data_name=name, engine=other)
+                h2.load_full_ds(engine=eng)
+                if h2._full_ds is None:
+                    vio.append((key("new-session"), "a new session given the "
+                                "engine per call finds nothing"))
+                else:
+                    why = same(h2._full_ds, orig, eng)
+                    if why:
+                        vio.append((key("new-session"), "a new session given "
+                                    "the engine per call loads: %s" % why))
+                return {"nontrivial": len(case["sizes"]) >= 1 and
+                        int(np.prod(case["sizes"])) >= 2,
+                        "outcome": "%s:%s" % (case["op"], "ok" if not vio
+                                              else "bad"), "violations": vio}
             h = xyz.Harvester(xyz.Runner(f, var_names="out"), data_name=name,
                               engine=eng, full_ds=ds)
             h.save_full_ds()
